@@ -12,6 +12,8 @@ never emits: GREASE / unknown types, truncated frames).
   NF           normal form of the H3 events of a connection
   Receiver     a fresh receiving H3Connection + its NF accumulator
 """
+from . import core
+
 from aioquic.h3.connection import H3Connection
 from aioquic.h3.events import (
     DatagramReceived,
@@ -458,6 +460,8 @@ class Receiver:
             return
         try:
             evs = self.h3.handle_event(StreamDataReceived(data=data, end_stream=fin, stream_id=sid))
+        except core.HarnessError:  # watchdog
+            raise
         except Exception as e:  # noqa: C16 decides exceptions; here only equality
             self.nf.raised = type(e).__name__
             evs = []
@@ -470,6 +474,8 @@ class Receiver:
             return
         try:
             evs = self.h3.handle_event(DatagramFrameReceived(data=data))
+        except core.HarnessError:  # watchdog
+            raise
         except Exception as e:  # noqa
             self.nf.raised = type(e).__name__
             evs = []
